@@ -87,12 +87,12 @@ def _worker(arg):
 
 
 def _replay_worker(arg):
-    pid, tier, case = arg
+    pid, tier, case, run_sig = arg
     try:
         mod = load(pid)
         _freeze_seams()
         ctx = core.Ctx(pid, tier, 0, replay=True)
-        ctx.run_case(mod.check_case, case)
+        ctx.run_case(mod.check_case, case, run_sig)
         ex = ctx.export()
         return sorted(ex['violations'].keys()), ex['violations'], ctx.log, None
     except BaseException as e:  # noqa
@@ -247,7 +247,7 @@ def run(pid, tier, seed, workers):
         os.makedirs(rdir, exist_ok=True)
         rargs = []
         for rec in to_print:
-            rargs += [(pid, tier, rec['case'])] * 2
+            rargs += [(pid, tier, rec['case'], rec.get('run_sig'))] * 2
         with _pool(min(workers, len(rargs))) as pool:
             rres = pool.map(_replay_worker, rargs, chunksize=1)
         for i, rec in enumerate(to_print):
@@ -308,8 +308,9 @@ def replay(pid, path, tier):
     with open(path) as f:
         rec = json.load(f)
     case = rec['case'] if 'case' in rec and 'signature' in rec else rec
+    run_sig = rec.get('run_sig') if 'signature' in rec else None
     with _pool(2) as pool:
-        a, b = pool.map(_replay_worker, [(pid, tier, case)] * 2, chunksize=1)
+        a, b = pool.map(_replay_worker, [(pid, tier, case, run_sig)] * 2, chunksize=1)
     if a[3] or b[3]:
         print('HARNESS-ERROR\n%s' % (a[3] or b[3]))
         return 2
